@@ -346,7 +346,8 @@ def run_check(mod, tier, seed):
         c = cases[i]
         hit = None
         for fd in findings:
-            if fd["rx"].search(c.sig):
+            # the pattern sees "<verdict kind>: <input>", so that another kind of failure on the same input is still reported
+            if fd["rx"].search(v.split(":")[0] + ": " + c.sig):
                 hit = fd
                 break
         if hit:
